@@ -21,7 +21,7 @@ of these functions that alters behaviour breaks an obligation here without any t
 (written by tools/mkrprops.py)
 -/
 namespace Arimaa
-open Gen GameState Arimaa.Gen.Rs Arimaa.Rt Arimaa.Gen.Bridge
+open Gen GameState Arimaa.Gen.Rs Arimaa.Rt Arimaa.Gen.Bridge%s
 
 theorem %s_value_of_ok {α : Type} {x : Res α} {p : Bool} {v w : α} (h : x = Res.guard p v) (hx : x = .ok w) :
     p = false ∧ w = v := by
@@ -65,7 +65,7 @@ def fns_of(text):
     return sorted(set(w for w in re.findall(r"[A-Za-z_][A-Za-z0-9_]*", text) if w in DEFS))
 
 
-def w(pid, imports, keys, extra=""):
+def w(pid, imports, keys, extra="", spec=False):
     fns = sorted(set(f for k in keys for f in fns_of(A[k][0])) | set(fns_of(extra)))
     imports = imports + ["Arimaa.Gen.Bridge.%s" % f for f in fns]
     parts = []
@@ -77,7 +77,7 @@ def w(pid, imports, keys, extra=""):
     body += " ∧\n    ".join("(%s)" % A[k][0] for k in keys) + " :=\n  " + ("⟨" + ",\n   ".join(parts) + "⟩" if len(parts) > 1 else parts[0]) + "\n\n"
     body += extra
     open(os.path.join(LEAN, "Arimaa/Props/%sr.lean" % pid), "w").write(
-        HDR % ("\n".join("import " + i for i in imports), pid, pid, pid, pid) + body + "\nend Arimaa\n")
+        HDR % ("\n".join("import " + i for i in imports), pid, pid, pid, " Spec" if spec else "", pid) + body + "\nend Arimaa\n")
 
 
 def value_cor(pid, name, binders, call, model, st_key):
@@ -91,9 +91,30 @@ def value_cor(pid, name, binders, call, model, st_key):
 
 
 L = "Arimaa.Lemmas."
-w('C02', ['Arimaa.Props.C02', L + 'RsAgreeStep'], ['take', 'btake', 'rtp', 'tpb'],
+NOREP = '''
+theorem %s_code_rule_only (s : GameState) (l : List Action) (hl : GameState_valid_actions_no_rep s = .ok l) :
+    l = s.validActionsNoRep := by
+  simp only [bridge_GameState_valid_actions_no_rep] at hl
+  exact (%s_value_of_ok (RsAgree.valid_actions_no_rep_direct s) hl).2
+'''
+w('C02', ['Arimaa.Props.C02', L + 'RsAgreeStep', L + 'RsAgreeGen'], ['take', 'btake', 'rtp', 'tpb'],
   "/-- whatever the regenerated `take_action` returns is the successor the C02 theorems are about -/\n" +
-  value_cor('C02', 'C02_code_successor', '(s r : GameState) (a : Action)', 'GameState_take_action s a', 's.takeAction a', 'RsAgree.take_action_eq s a'))
+  value_cor('C02', 'C02_code_successor', '(s r : GameState) (a : Action)', 'GameState_take_action s a', 's.takeAction a', 'RsAgree.take_action_eq s a') +
+  NOREP % ('C02', 'C02') + '''
+/-- **C02 for the code as it is now**: a step taken from the list the regenerated `valid_actions_no_rep` returned,
+applied by the regenerated `take_action`, moves exactly that piece onto the empty neighbour and then removes
+exactly the unsupported trap pieces (`Spec.capture (Spec.move ..)`); the new board is well formed -/
+theorem C02_code_step_refines (s s' : GameState) (pp : PlayPhase) (h : PlayInv s pp) (l : List Action)
+    (hl : GameState_valid_actions_no_rep s = .ok l) (i : Nat) (d : Dir) (ha : Action.move i d ∈ l)
+    (ht : GameState_take_action s (.move i d) = .ok s') :
+    ∃ c j, absBoard s.board i = some c ∧ nbr i (dirSpec d) = some j ∧ absBoard s.board j = none ∧
+      absBoard s'.board = capture (move (absBoard s.board) i j) ∧ WF s'.board := by
+  have h1 := C02_code_rule_only s l hl
+  have h2 := C02_code_successor s s' _ ht
+  subst h1 h2
+  obtain ⟨c, j, hc, hn, hj, hb, _, hw⟩ := C02_refines s pp h i d ha
+  exact ⟨c, j, hc, hn, hj, hb, hw⟩
+''', spec=True)
 w('C03', ['Arimaa.Props.C03', L + 'RsAgreeStep'], ['take'],
 '''/-- **C03 for the code as it is now**: a step before the fourth, as the regenerated `take_action` computes it,
 keeps the side and the move number and raises the step counter by one -/
@@ -107,7 +128,15 @@ theorem C03_code_step_after_move (s s' : GameState) (pp : PlayPhase) (sq : Nat) 
   exact ⟨h1, h3, h4⟩
 ''')
 w('C04', ['Arimaa.Props.C04', L + 'RsAgreeResult'], ['term', 'hm', 'rag', 'lar'],
-  value_cor('C04', 'C04_code_result', '(s : GameState) (r : Option Terminal)', 'GameState_is_terminal s', 's.isTerminal', 'RsAgree.is_terminal_eq s'))
+  value_cor('C04', 'C04_code_result', '(s : GameState) (r : Option Terminal)', 'GameState_is_terminal s', 's.isTerminal', 'RsAgree.is_terminal_eq s') + '''
+/-- **C04 for the code as it is now**: at the start of a turn, whatever the regenerated `is_terminal` returns is
+the result of the official decision list (`Spec.result`) on the abstracted board -/
+theorem C04_code_turn_start (s : GameState) (pp : PlayPhase) (hph : s.phase = .play pp) (hw : WF s.board)
+    (h0 : pp.step = 0) (hpps : pp.pps = .none) (r : Option Terminal) (h : GameState_is_terminal s = .ok r) :
+    r.map toSpecResult = Spec.result (absBoard s.board) s.p1Turn := by
+  rw [C04_code_result s r h]
+  exact C04_turn_start_spec s pp hph hw h0 hpps
+''', spec=True)
 C05_EXTRA = '''
 /-- a game played THROUGH THE REGENERATED CODE: every action is taken from the list the regenerated
 `valid_actions` returned, every successor is the one the regenerated `take_action` returned, no call panicked -/
@@ -148,7 +177,18 @@ theorem C05_code_turn_changes_board (s0 t : GameState) (h0 : StartOk s0) (as : L
 w('C05', ['Arimaa.Props.C05', L + 'RsAgreeOffered', L + 'RsAgreeStep'], ['va', 'take', 'ipl', 'cp'],
   value_cor('C05', 'C05_code_offered', '(s : GameState) (r : List Action)', 'GameState_valid_actions s', 's.validActions', 'RsAgree.valid_actions_eq s') + C05_EXTRA)
 w('C06', ['Arimaa.Props.C06', L + 'RsAgreeOffered', L + 'RsAgreeStep'], ['va', 'take', 'ipl', 'cp'],
-  value_cor('C06', 'C06_code_offered', '(s : GameState) (r : List Action)', 'GameState_valid_actions s', 's.validActions', 'RsAgree.valid_actions_eq s'))
+  value_cor('C06', 'C06_code_offered', '(s : GameState) (r : List Action)', 'GameState_valid_actions s', 's.validActions', 'RsAgree.valid_actions_eq s') +
+  NOREP % ('C06', 'C06') + '''
+/-- **C06 for the code as it is now**: the list of the regenerated `valid_actions` is a sublist, in the same
+order, of the list of the regenerated `valid_actions_no_rep`, and every action withheld ends the turn -/
+theorem C06_code_sublist_and_withheld (s : GameState) (pp : PlayPhase) (hph : s.phase = .play pp)
+    (l l' : List Action) (hl : GameState_valid_actions s = .ok l) (hl' : GameState_valid_actions_no_rep s = .ok l') :
+    List.Sublist l l' ∧ ∀ a ∈ l', a ∉ l → endsTurn pp a = true := by
+  have h1 := C06_code_offered s l hl
+  have h2 := C06_code_rule_only s l' hl'
+  subst h1 h2
+  exact ⟨C06_sublist s, fun a hin hout => (C06_only_turn_ending_withheld s pp hph a hin hout).2⟩
+''')
 w('C07', ['Arimaa.Props.C07', L + 'RsAgreeOffered', L + 'RsAgreeResult'], ['va', 'hm', 'term', 'cp'],
 '''/-- **C07 for the code as it is now**: whatever the regenerated `has_move` and `valid_actions` return,
 "no result" coincides with "the offered list is non-empty" -/
@@ -163,15 +203,102 @@ theorem C07_code_has_move_iff (s : GameState) (pp : PlayPhase) (hph : s.phase = 
   subst h1 h2
   exact C07_has_move_iff s pp hph h3
 ''')
-w('C08', ['Arimaa.Props.C08', L + 'RsAgreeStep', L + 'RsAgreeTHash'], ['take', 'fpb', 'pbv', 'thash', 'geq'])
-w('C09', ['Arimaa.Props.C09', L + 'RsAgreeStep'], ['take', 'vp', 'pbit'])
-w('C10', ['Arimaa.Props.C10', L + 'RsAgreeStep'], ['take', 'bfp', 'ppm', 'bbpt', 'ptas'])
+w('C08', ['Arimaa.Props.C08', L + 'RsAgreeStep', L + 'RsAgreeTHash'], ['take', 'fpb', 'pbv', 'thash', 'geq'], '''
+/-- **C08 for the code as it is now**: if the incremental hash of a play state equals the from-scratch hash, then
+after a step or pass computed by the regenerated `take_action` it still does — and the regenerated
+`Zobrist::from_piece_board` of the new board, side and step returns exactly the stored hash -/
+theorem C08_code_incremental_eq_scratch (s s' : GameState) (hplay : s.isPlay = true) (h : HashOk s) (a : Action)
+    (hna : a.isPlace = false) (ht : GameState_take_action s a = .ok s') :
+    ∃ pp', s'.phase = .play pp' ∧ s'.hash = zFromPieceBoard s'.board s'.p1Turn pp'.step ∧
+      ∀ x, Zobrist_from_piece_board s'.board s'.p1Turn pp'.step = .ok x → x = s'.hash := by
+  simp only [bridge_GameState_take_action] at ht
+  have h2 := (C08_value_of_ok (RsAgree.take_action_eq s a) ht).2
+  subst h2
+  obtain ⟨pp', hp, hh⟩ := C08_incremental_eq_scratch s hplay h [a] (by simpa using hna) 1
+  simp only [List.take_succ_cons, List.take_zero, List.foldl_cons, List.foldl_nil] at hp hh
+  refine ⟨pp', hp, hh, ?_⟩
+  intro x hx
+  simp only [bridge_Zobrist_from_piece_board] at hx
+  rw [(C08_value_of_ok (RsAgree.from_piece_board_eq _ _ _) hx).2, hh]
+''')
+w('C09', ['Arimaa.Props.C09', L + 'RsAgreeStep', L + 'RsAgreeOffered'], ['take', 'vp', 'pbit'],
+  value_cor('C09', 'C09_code_offered_list', '(s : GameState) (r : List Action)', 'GameState_valid_actions s', 's.validActions', 'RsAgree.valid_actions_eq s') + '''
+/-- **C09 for the code as it is now**: during setup the regenerated `valid_actions` offers exactly the piece types
+the mover has not yet placed in full, in the fixed order elephant … rabbit -/
+theorem C09_code_offered (s : GameState) (hph : s.phase = .place) (l : List Action)
+    (hl : GameState_valid_actions s = .ok l) :
+    l = (([.elephant, .camel, .horse, .dog, .cat, .rabbit] : List Piece).filter
+        (fun t => decide (moverCount s t < complement t))).map Action.place := by
+  rw [C09_code_offered_list s l hl]
+  exact C09_offered s hph
+''')
+w('C10', ['Arimaa.Props.C10', L + 'RsAgreeStep'], ['take', 'bfp', 'ppm', 'bbpt', 'ptas'], '''
+/-- **C10 for the code as it is now**: on a well-formed board the regenerated views (`bits_for_piece`,
+`player_piece_mask`, `bits_by_piece_type`, `piece_type_at_square`) all describe the one abstract position -/
+theorem C10_code_views_agree (b : Board) (hw : WF b) (k : Nat) (hk : k < 64) :
+    (∀ p g, bit (PieceBoardState_bits_for_piece b p g) k = (absBoard b k == some ⟨g, toSpec p⟩)) ∧
+    (∀ g, bit (PieceBoardState_player_piece_mask b g) k = ownedBy (absBoard b) g k) ∧
+    (∀ p, bit (PieceBoardState_bits_by_piece_type b p) k = (typeAt b k == some p)) ∧
+    PieceBoardState_piece_type_at_square b k = .ok (typeAt b k) := by
+  obtain ⟨h1, h2, h3, _, h5, _⟩ := C10_views_agree b hw k hk
+  simp only [bridge_PieceBoardState_bits_for_piece, bridge_PieceBoardState_player_piece_mask,
+    bridge_PieceBoardState_bits_by_piece_type, bridge_PieceBoardState_piece_type_at_square,
+    RsAgree.bits_for_piece, RsAgree.player_piece_mask, RsAgree.bits_by_piece_type, RsAgree.piece_type_at_square]
+  refine ⟨h1, h2, h3, ?_⟩
+  have : b.pieceTypeAtSquarePanics k = false := by simp [Board.pieceTypeAtSquarePanics, sqBitPanics]; omega
+  rw [this, h5]; rfl
+''', spec=True)
 w('C11', ['Arimaa.Props.C11', L + 'RsAgreeGen', L + 'RsAgreeStep', L + 'RsAgreeResult'], ['vanr', 'take', 'term'])
-w('C12', ['Arimaa.Props.C12', L + 'RsAgreeGen', L + 'RsAgreeStep'], ['vanr', 'npps', 'mcpa', 'take'])
-w('C13', ['Arimaa.Props.C13', L + 'RsAgreePreview', L + 'RsAgreeStep'], ['prev', 'take', 'tpb'],
-  value_cor('C13', 'C13_code_preview', '(s : GameState) (a : Action) (r : Option (Nat × Piece × Bool))', 'GameState_trapped_animal_for_action s a', 's.trappedAnimalForAction a', 'RsAgree.trapped_animal_for_action_eq s a'))
+w('C12', ['Arimaa.Props.C12', L + 'RsAgreeGen', L + 'RsAgreeStep'], ['vanr', 'npps', 'mcpa', 'take'],
+  NOREP % ('C12', 'C12') + '''
+/-- **C12 for the code as it is now**: after a step from the rule-only list of the regenerated code, applied by
+the regenerated `take_action` before the last step of the turn, the reported status is the one the rules
+prescribe (`Spec.nextPending`) -/
+theorem C12_code_status_after_step (s s' : GameState) (pp : PlayPhase) (h : PlayInv s pp) (l : List Action)
+    (hl : GameState_valid_actions_no_rep s = .ok l) (i : Nat) (d : Dir) (ha : Action.move i d ∈ l)
+    (hlt : pp.step < 3) (ht : GameState_take_action s (.move i d) = .ok s') :
+    ∃ pp', s'.phase = .play pp' ∧
+      absPend pp'.pps = nextPending (absBoard s.board) s.p1Turn (absPend pp.pps) i (dirSpec d) := by
+  have h1 := C12_code_rule_only s l hl
+  simp only [bridge_GameState_take_action] at ht
+  have h2 := (C12_value_of_ok (RsAgree.take_action_eq s _) ht).2
+  subst h1 h2
+  exact C12_status_after_step s pp h i d ha hlt
+''', spec=True)
+w('C13', ['Arimaa.Props.C13', L + 'RsAgreePreview', L + 'RsAgreeStep', L + 'RsAgreeGen'], ['prev', 'take', 'tpb'],
+  value_cor('C13', 'C13_code_preview', '(s : GameState) (a : Action) (r : Option (Nat × Piece × Bool))', 'GameState_trapped_animal_for_action s a', 's.trappedAnimalForAction a', 'RsAgree.trapped_animal_for_action_eq s a') +
+  NOREP % ('C13', 'C13') + '''
+/-- **C13 for the code as it is now**: for a step of the rule-only list of the regenerated code, what the
+regenerated preview returns is `none` exactly when the step leaves no unsupported trap piece, and otherwise names
+the one square, type and owner that hangs after the move -/
+theorem C13_code_preview_exact (s : GameState) (pp : PlayPhase) (h : PlayInv s pp)
+    (hno : NoHanging (absBoard s.board)) (l : List Action) (hl : GameState_valid_actions_no_rep s = .ok l)
+    (i : Nat) (d : Dir) (ha : Action.move i d ∈ l) (r : Option (Nat × Piece × Bool))
+    (hr : GameState_trapped_animal_for_action s (.move i d) = .ok r) :
+    ∃ j, nbr i (dirSpec d) = some j ∧
+      (r = none ↔ ∀ k, k < 64 → hanging (move (absBoard s.board) i j) k = false) ∧
+      (∀ k p g, r = some (k, p, g) →
+        k < 64 ∧ move (absBoard s.board) i j k = some ⟨g, toSpec p⟩ ∧
+          hanging (move (absBoard s.board) i j) k = true ∧
+          ∀ k', k' < 64 → hanging (move (absBoard s.board) i j) k' = true → k' = k) := by
+  have h1 := C13_code_rule_only s l hl
+  have h2 := C13_code_preview s _ r hr
+  subst h1 h2
+  exact C13_preview_exact s pp h hno i d ha
+''', spec=True)
 w('C14', ['Arimaa.Props.C14', L + 'RsAgreePrevBoards', L + 'RsAgreeStep'], ['pbs', 'take'],
   value_cor('C14', 'C14_code_board_for_step', '(s : GameState) (i : Nat) (r : Board)', 'GameState_piece_board_for_step s i', 's.pieceBoardForStep i', 'RsAgree.piece_board_for_step_eq s i'))
 w('C15', ['Arimaa.Props.C15', L + 'RsAgreeTHash', L + 'RsAgreeHash'], ['thash', 'fpb'])
-w('C17', ['Arimaa.Props.C17', L + 'RsAgreeTHash', L + 'RsAgreeHash'], ['thash', 'wpps', 'fpb'])
+w('C17', ['Arimaa.Props.C17', L + 'RsAgreeTHash', L + 'RsAgreeHash'], ['thash', 'wpps', 'fpb'],
+  value_cor('C17', 'C17_code_thash', '(s : GameState) (r : BB)', 'GameState_transposition_hash s', 's.transpositionHash', 'RsAgree.transposition_hash_eq s') + '''
+/-- **C17 for the code as it is now** (content of one square): two play states that differ in the content of
+exactly one square get different values from the regenerated `transposition_hash` -/
+theorem C17_code_content (b b' : Board) (hb : b.AtMostOne) (hb' : b'.AtMostOne) (q : Nat) (hq : q < 64)
+    (hsame : ∀ i, i < 64 → i ≠ q → b.contentAt i = b'.contentAt i)
+    (hdiff : b.contentAt q ≠ b'.contentAt q) (side : Bool) (n : Nat) (pp : PlayPhase) (x x' : BB)
+    (hx : GameState_transposition_hash (mkPlay b side n pp) = .ok x)
+    (hx' : GameState_transposition_hash (mkPlay b' side n pp) = .ok x') : x ≠ x' := by
+  rw [C17_code_thash _ x hx, C17_code_thash _ x' hx']
+  exact C17_content b b' hb hb' q hq hsame hdiff side n pp
+''')
 print("written")
